@@ -8,6 +8,8 @@
 //!   flip    arg lo|hi (lowest / highest bit), sel first|last (byte of the region)
 //!   set     arg 0|255|127|128, sel first|mid|last
 //!   trunc   sel lo|hi (region boundary), d in -1..1: the file is cut at boundary + d
+//!   bump    (kind enc) the byte read as a one-byte varint (sel uv | zz) becomes value+1 | +5 | x2 | page length |
+//!           page length - 1 (arg p1|p5|x2|len|lenm1), in place
 //!   inflate arg x2|p1|i31|u32|neg|zero on a length-like region; fix = adjust the enclosing length field
 //!   dup / drop          the region is duplicated / removed
 //!   dupframe / dropframe   the same for the whole frame (all regions of the same `grp`)
@@ -132,6 +134,31 @@ pub fn apply(base: &BaseFile, donor: Option<&BaseFile>, p: &Plan) -> Option<Appl
             let at = byte_at(reg)?;
             out[at] = p.arg.parse::<u8>().ok()?;
             Some(Applied { bytes: out, neww: 1, oldw: 1, at })
+        }
+        "bump" => {
+            // one byte of an encoding header read as a single-byte varint (sel uv: unsigned, zz: zig-zag) and
+            // moved to a nearby / page-sized value, re-encoded in place
+            let r = reg?;
+            let old = b[r.lo];
+            if old >= 0x80 {
+                return None;
+            }
+            let page_len: i64 = base.regions.iter().filter(|x| x.grp == r.grp && (x.kind == "body" || x.kind == "enc")).map(|x| (x.hi - x.lo) as i64).sum();
+            let v: i64 = if p.sel == "zz" { walk::unzigzag(old as u64) } else { old as i64 };
+            let nv = match p.arg {
+                "p1" => v + 1,
+                "p5" => v + 5,
+                "x2" => v * 2,
+                "len" => page_len,
+                "lenm1" => page_len - 1,
+                _ => return None,
+            };
+            let enc: u64 = if p.sel == "zz" { walk::zigzag(nv) } else if nv < 0 { return None } else { nv as u64 };
+            if enc >= 0x80 || enc as u8 == old {
+                return None;
+            }
+            out[r.lo] = enc as u8;
+            Some(Applied { bytes: out, neww: 1, oldw: 1, at: r.lo })
         }
         "trunc" => {
             let cut = match (p.sel, reg) {
